@@ -6,7 +6,7 @@
 -/
 import Grenad.Model.Abstract
 
-namespace Grenad
+namespace Grenad.IterP
 
 /-! ### bytes -/
 
@@ -62,7 +62,12 @@ theorem bytes_lt_irrefl (a : Bytes) : ¬ a < a := List.lt_irrefl a
 
 theorem bytes_le_refl (a : Bytes) : a ≤ a := List.le_refl a
 
-/-! ### `advanceKey` -/
+end Grenad.IterP
+
+namespace Grenad
+open IterP
+
+/-! ### `advanceKey` (public names, in `Grenad`) -/
 
 theorem advanceRev_append_singleton (l : Bytes) (x : UInt8) :
     advanceRev (l ++ [x]) =
@@ -114,13 +119,13 @@ theorem advanceKey_none (p : Bytes) : advanceKey p = none ↔ ∀ b ∈ p, b = 2
 theorem isPrefixOf_iff_le_of_all255 (p : Bytes) (h : ∀ b ∈ p, b = 255) (k : Bytes) :
     p.isPrefixOf k = true ↔ p ≤ k := by
   induction p generalizing k with
-  | nil => simp [bytes_nil_le]
+  | nil => simp
   | cons x p ih =>
     have hx : x = 255 := h x (List.mem_cons_self)
     have hp : ∀ b ∈ p, b = 255 := fun b hb => h b (List.mem_cons_of_mem _ hb)
     subst hx
     cases k with
-    | nil => simp [bytes_not_cons_le_nil]
+    | nil => simp
     | cons y k =>
       rw [List.isPrefixOf_cons_cons, bytes_cons_le_cons, Bool.and_eq_true, ih hp k]
       simp [u8_not_255_lt]
@@ -138,7 +143,7 @@ theorem advanceKey_spec (p s : Bytes) (h : advanceKey p = some s) (k : Bytes) :
       simp only [Option.some.injEq] at h
       subst h
       cases k with
-      | nil => simp [bytes_not_cons_le_nil]
+      | nil => simp
       | cons y k =>
         rw [List.isPrefixOf_cons_cons, bytes_cons_le_cons, bytes_cons_lt_cons, Bool.and_eq_true,
           ih s' hp k]
@@ -158,7 +163,7 @@ theorem advanceKey_spec (p s : Bytes) (h : advanceKey p = some s) (k : Bytes) :
       · simp only [hx, if_false, Option.some.injEq] at h
         subst h
         cases k with
-        | nil => simp [bytes_not_cons_le_nil]
+        | nil => simp
         | cons y k =>
           rw [List.isPrefixOf_cons_cons, bytes_cons_le_cons, bytes_cons_lt_cons, Bool.and_eq_true,
             isPrefixOf_iff_le_of_all255 p h255 k, u8_lt_succ_iff hx]
@@ -184,6 +189,10 @@ theorem le_of_isPrefixOf {p k : Bytes} (h : p.isPrefixOf k = true) : p ≤ k := 
   cases hp : advanceKey p with
   | some s => exact ((advanceKey_spec p s hp k).mp h).1
   | none => exact (isPrefixOf_iff_le_of_all255 p ((advanceKey_none p).mp hp) k).mp h
+
+end Grenad
+
+namespace Grenad.IterP
 
 /-! ### generic list lemmas -/
 
@@ -322,4 +331,4 @@ theorem getElem_length_takeWhile {α} (f : α → Bool) (l : List α)
 theorem length_takeWhile_le {α} (f : α → Bool) (l : List α) : (l.takeWhile f).length ≤ l.length :=
   (List.takeWhile_sublist f).length_le
 
-end Grenad
+end Grenad.IterP
